@@ -215,15 +215,26 @@ Section Cfg.
   (* ---- DomainS ---- *)
   Definition P_dom (c : nat) (h : list obj) (o : obj) : Prop := o_cls o = c /\ dom_ok o.
 
-  Lemma obj_len_nonneg h o l : obj_len h o = Ok l -> (0 <= l)%Z.
+  (* the lengths stored in a heap with the invariant (slots_ok: a DDom object is of class cd) *)
+  Lemma obj_ok_len h o l : obj_ok h o -> o_data o = DDom l -> (0 <= l)%Z.
   Proof.
-    unfold obj_len. destruct (hget h o) as [ob|]; [|discriminate]. destruct (o_data ob); try discriminate.
-    destruct (len <? 0)%Z eqn:E; [discriminate|]. intros H; injection H as <-. apply Z.ltb_ge in E. exact E.
+    intros [[_ [l' [E [Hl _]]]]|[[_ [es [E _]]]|[[_ Q]|[[_ Q]|[_ [a [b [t [m [rr [pp [E _]]]]]]]]]]]] Ed;
+      rewrite Ed in *; try discriminate; try contradiction.
+    injection E as <-. exact Hl.
   Qed.
 
-  Lemma obj_len_dom h o ob : hget h o = Some ob -> dom_ok ob -> exists l, obj_len h o = Ok l.
+  Lemma kinv_heaplen h : KInv h -> forall i o l, hget h i = Some o -> o_data o = DDom l -> (0 <= l)%Z.
+  Proof. intros K i o l H Ed. eapply obj_ok_len; [apply (K i o H) | exact Ed]. Qed.
+
+  Lemma obj_len_nonneg h o l : KInv h -> obj_length h o = Ok l -> (0 <= l)%Z.
   Proof.
-    intros H [l [E [Hl _]]]. unfold obj_len. rewrite H, E. apply Z.ltb_ge in Hl. rewrite Hl. eauto.
+    intros K. unfold obj_length. destruct (hget h o) as [ob|] eqn:E; [|discriminate].
+    destruct (o_data ob) eqn:Ed; try discriminate. intros H; injection H as <-. eapply kinv_heaplen; eauto.
+  Qed.
+
+  Lemma obj_len_dom h o ob : hget h o = Some ob -> dom_ok ob -> exists l, obj_length h o = Ok l.
+  Proof.
+    intros H [l [E _]]. unfold obj_length. rewrite H, E. eauto.
   Qed.
 
   (* every domain call in class cd keeps the invariant *)
@@ -235,8 +246,9 @@ Section Cfg.
     eapply proj2. apply (sext_dom_call (obj_ok (heap st)) ct cd nm_ok (fun z => (0 <= z)%Z)); auto.
     - intros o H. exact H.
     - apply nm_ok_cname.
-    - intros h o l. apply obj_len_nonneg.
+    - intros o l. apply obj_ok_len.
     - intros n l Hn' Hl'. left. split; [reflexivity|]. exists l. auto.
+    - exact (kinv_heaplen _ K).
   Qed.
 
   Definition RecSpec (rec : state -> pstr -> option Z -> state * cout) : Prop :=
@@ -249,7 +261,7 @@ Section Cfg.
     let s1 := fst (rec st n l) in
     Inv ct s1 /\ KInv (heap s1) /\
     match snd (rec st n l) with
-    | CRet o _ => exists cl, obj_len (heap s1) o = Ok cl
+    | CRet o _ => exists cl, obj_length (heap s1) o = Ok cl
     | CErr k _ => is_fault k = false
     end.
   Proof.
@@ -274,13 +286,13 @@ Section Cfg.
     assert (IC : forall s, Inv ct s -> Inv ct (collect s)) by (intros s; apply inv_collect).
     assert (KC : forall s, KInv (heap s) -> KInv (heap (collect s))) by (intros s; apply kinv_collect).
     destruct len1 as [l|], (starred nm).
-    - destruct (Z.eqb l 0); [cbn; auto|].
+    - 
       destruct (rec_then_len rec st (cname_of nm) None SO HR I K Hcn ltac:(discriminate)) as [I1 [K1 L1]].
       destruct (rec st (cname_of nm) None) as [s1 [o b|k e]]; cbn [fst snd] in *.
       + destruct L1 as [cl EL]. rewrite EL. cbn [fst snd]. split; [auto|]. split; [auto|].
         destruct (Z.eqb cl l); [exact Hl | reflexivity].
       + destruct (is_singleton_err k); cbn [fst snd]; auto.
-    - destruct (Z.eqb l 0); [cbn; auto|].
+    - 
       destruct (rec_then_len rec st (cname_of nm) None SO HR I K Hcn ltac:(discriminate)) as [I1 [K1 L1]].
       destruct (rec st (cname_of nm) None) as [s1 [o b|k e]]; cbn [fst snd] in *.
       + destruct L1 as [cl EL]. rewrite EL.
